@@ -88,7 +88,7 @@ def clean_case(spec, estimator, n_reporting, alphas, n_total=None, salt=0):
              el_n_zero_baseline=0, el_tiny_county=False, el_uncontested=False, el_noise="gauss", el_noise_scale=0.03, feed_n_missing=0, feed_n_unexpected=0,
              feed_p_strange=0.0, feed_boundary=False, threshold=100, policy="drop", alphas=list(alphas),
              aggregates=["postal_code", "unit"], fixed_effects={}, features=[] if estimator != "bootstrap" else None,
-             n_estimands=1, feed_frac_reporting=1.0,
+             n_estimands=1, feed_frac_reporting=1.0, null_unused=False, extra_state_rows=False,
              mp=dict(fit_turnout_outlier_model=False, fit_margin_outlier_model=False, turnout_factor_lower=0.0,
                      turnout_factor_upper=1e9))
     if estimator == "bootstrap":
